@@ -62,7 +62,7 @@ class C14(Prop):
             from ..crash import Recorder
             rec = Recorder(case.idx.folder)
             case.idx.close()
-            case.idx.open(True, dict(case.config.rules))
+            case.idx.open(True, dict(case.idx.rules))
             case.state["rec"] = rec
             case.state["all_rules"] = dict(case.config.rules)
 
@@ -93,7 +93,8 @@ class C14(Prop):
                     continue
                 write_folder(scratch, trie, link)
                 try:
-                    t = Traph(folder=scratch, overwrite=False, default_webentity_creation_rule=RULES[case.idx.default_rule],
+                    t = Traph(folder=scratch, overwrite=False, encoding=case.config.encoding,
+                              default_webentity_creation_rule=RULES[case.idx.default_rule],
                               webentity_creation_rules={a: RULES[x] for a, x in case.state["all_rules"].items()})
                 except Exception:
                     continue
